@@ -548,6 +548,17 @@ SECTION_PROLOGUE = 'opening = 1\nprint(opening)\n\n'
 
 
 def execute_case(ctx, which, case, state=None):
+    # (whatever trace function the program of this cell leaves in the harness's own thread - also in steps that are not measured,
+    # where no tracer of pedal's is there to put the old one back - is not the next cell's business)
+    trace_at_start = sys.gettrace()
+    try:
+        return _execute_case(ctx, which, case, state)
+    finally:
+        if sys.gettrace() is not trace_at_start:
+            sys.settrace(trace_at_start)
+
+
+def _execute_case(ctx, which, case, state=None):
     """case: {'mode':..., 'body':..., 'kind':..., 'entry':..., 'tracer':..., 'threaded':bool, 'position': 'first'|'after-failure'|'after-ok'}"""
     mode, entry, tracer, threaded = case['mode'], case['entry'], case.get('tracer', 'none'), case.get('threaded', False)
     kind = case['kind']
